@@ -134,7 +134,7 @@ def registry(chk, P):
     reg = P.cls("atsim.potentials.config._potential_form_registry", "Potential_Form_Registry")
     rexc = P.cls("atsim.potentials.config._common", "Potential_Form_Registry_Exception")
     cfg = P.cls("atsim.potentials.config._common", "ConfigurationException")
-    site = reg.lookup("__init__").site()
+    site = reg.site_of("__init__")
 
     def attempt(tables, forms):
         I = F.make_interp(P)
@@ -177,5 +177,5 @@ def fs_duplicates(chk, P):
                 [(("Fe", "Al"), W.param("d1")), (("Al", "Fe"), W.param("d2")), (("Fe", "Al"), W.param("d3"))])
     out = o[2] if o[1] == "raise" else "accepted"
     chk.ob("C20.O4", "a repeated Fe->Al density (after an Al->Fe one) is a configuration error", o[1] == "raise" and E.is_config_error(P, o[2]),
-           site=ci.lookup("eam_potentials").site(), found=out, expect="ConfigurationException", key="C20.O4|fs-repeat")
+           site=ci.site_of("eam_potentials"), found=out, expect="ConfigurationException", key="C20.O4|fs-repeat")
 
